@@ -39,7 +39,10 @@ NEEDS_EVENTS = True
 ANCHORS = ["hy.core.result_macros:compile_try_expression", "hy.core.result_macros:compile_with_expression",
            "hy.core.result_macros:compile_raise_expression"]
 ASSUMPTIONS = [
-    "CPython 3.12.1 executes try/with/raise as documented (the twin is the reference)",
+    "CPython 3.12.1 executes try/with/raise as documented (the twin is the reference); exception: CPython 3.12.1 "
+    "drops an exception group raised inside an except* body when it has the same metadata as the caught group "
+    "(e.g. try: try: raise KeyError(2) / except* LookupError: raise / except* BaseException: <nested except* try that "
+    "raises>): a diagnostic twin detects such reference runs and the plan is then not judged",
     "the Python twin renderer (hv/faults.py render_py) encodes docs/api.rst: try -> value of the last form evaluated "
     "among body/handler/else; with -> body value or None when suppressed; except variable local to its handler",
     "`[]` is documented both as \"any subtype of Exception\" and as \"like Python's `except:`\": either reading is "
@@ -216,11 +219,11 @@ def _finally_counts(events, tries):
     return None
 
 
-def check_plan(hy_code, py_code, py2_code, plan, tries):
-    """Returns (why|None, info)."""
+def check_plan(hy_code, py_code, py2_code, plan, tries, diag=None):
+    """Returns (why|None, info).  `diag`: callable giving the compiled diagnostic twin."""
     got = F.run_code(hy_code, plan)
     ref = F.run_code(py_code, plan)
-    info = {"got": got, "ref": ref, "reading2": False}
+    info = {"got": got, "ref": ref, "reading2": False, "carved": False}
     why = _cmp(got, ref, tries)
     if why is not None and py2_code is not None:
         ref2 = F.run_code(py2_code, plan)
@@ -228,7 +231,16 @@ def check_plan(hy_code, py_code, py2_code, plan, tries):
             info["reading2"] = True
             info["ref"] = ref2
             why = None
-    if why is None:
+    if why is not None and diag is not None:
+        # Trusted-base guard: CPython 3.12.1 can complete an except* try statement normally
+        # although a handler body raised (the raised group is mistaken for a re-raise and
+        # dropped).  The diagnostic twin -- same observable run, plus bookkeeping -- proves it;
+        # such a reference run cannot judge Hy and the plan is not judged.
+        dg = F.run_code(diag(), plan)
+        if dg["lost"] and all(dg[k] == ref[k] for k in ("events", "exc", "result", "finals")):
+            info["carved"] = True
+            why = None
+    if why is None and not info["carved"]:
         why = _finally_counts(got["events"], tries)
     return why, info
 
@@ -292,8 +304,18 @@ def run_case(case):
     sha = hashlib.sha1(case["hy"].encode()).hexdigest()[:16]
     nt_keys = []
     bad = []
+    diag = None
+    if "try:except*" in feats:
+        memo = []
+
+        def diag():
+            if not memo:
+                memo.append(F.compile_py(F.render_py(prog, True, diag=True)))
+            return memo[0]
     for plan in case["plans"]:
-        why, info = check_plan(hy_code, py_code, py2_code, plan, tries)
+        why, info = check_plan(hy_code, py_code, py2_code, plan, tries, diag)
+        if info["carved"]:
+            classes.add("carve:cpython-exceptstar-dropped-raised-exception(reference-run-not-judged)")
         res["n"] += 1
         res["events"] += len(info["got"]["events"])
         ref = info["ref"]
